@@ -260,6 +260,30 @@ pub fn generate(ctx: &mut Ctx) {
             ctx.case("pool", &inp);
         }
     }
+    // 1b. numbers of different magnitude in convertible and unrelated units: every ordered triple (an order
+    // that looks at quantities for some pairs and at raw magnitudes for others is not transitive)
+    {
+        let u = |s: &str| libhaystack::units::get_unit(s);
+        let num = |x: f64, unit: Option<&'static libhaystack::units::Unit>| Value::Number(Number { value: x, unit });
+        let nums: Vec<Value> = vec![
+            num(1.0, u("km")), num(900.0, u("m")), num(2.0, u("m")), num(1500.0, u("m")), num(1.5, u("s")), num(2.0, u("s")),
+            num(1000.0, None), num(1.5, None), num(1.0, None), num(0.0, u("°C")), num(1.0, u("°F")), num(32.0, u("°F")),
+            num(1.0, u("kW")), num(999.0, u("W")), num(1.0, u("h")), num(3599.0, u("s")), num(3601.0, u("s")),
+        ];
+        let m = nums.len();
+        let step = if ctx.quick() { 2 } else { 1 };
+        let mut t = 0usize;
+        for a in 0..m {
+            for b in 0..m {
+                for c in 0..m {
+                    t += 1;
+                    if t % step == 0 {
+                        ctx.case("units3", &show3(&nums[a], &nums[b], &nums[c]));
+                    }
+                }
+            }
+        }
+    }
     // 2. random values and their mutants
     let total = ctx.n(2500, 120_000);
     for _ in 0..total {
